@@ -36,6 +36,7 @@ type Op struct {
 		Gap bool  `json:"gap"`
 		Nr  int   `json:"nr"`
 		Rel []int `json:"rel"`
+		Bx  bool  `json:"bx"`
 	} `json:"t"`
 }
 
@@ -47,7 +48,7 @@ func (o Op) class() string {
 	}
 	rel := append([]int{}, o.T.Rel...)
 	sort.Ints(rel)
-	return fmt.Sprintf("rb=%v gap=%v nr=%d k=%s pre=%v rel=%v", o.T.Rb, o.T.Gap, nr, o.K, o.K != "none" && o.At == 0, rel)
+	return fmt.Sprintf("rb=%v gap=%v nr=%d k=%s pre=%v rel=%v bx=%v", o.T.Rb, o.T.Gap, nr, o.K, o.K != "none" && o.At == 0, rel, o.T.Bx)
 }
 
 func (o Op) post() AbsState { return AbsState{Synced: o.Post.Synced, Rows: o.Post.Stored} }
